@@ -397,7 +397,7 @@ impl UpdateCase {
             if oracle.is_none() && status == "ok" && self.crash_at.is_none() && self.representable {
                 // C07: nothing but expectations changes
                 if let Some(m) = self.preserved(&after) {
-                    oracle = Some(format!("C07|{}", m));
+                    oracle = Some(if m.starts_with("C06|") { m } else { format!("C07|{}", m) });
                 }
             }
             if oracle.is_none() && status == "ok" && self.crash_at.is_none() && self.representable {
@@ -444,7 +444,7 @@ impl UpdateCase {
             let b = parse_with_name::<DefaultColumnType>(new, p.as_str());
             let (a, b) = match (a, b) {
                 (Ok(a), Ok(b)) => (a, b),
-                (Ok(_), Err(e)) => return Some(format!("{}: rewritten file does not parse: {}", p, e)),
+                (Ok(_), Err(e)) => return Some(format!("C06|{}: rewritten file does not parse: {}", p, e)),
                 _ => continue,
             };
             let sa = skeletons(&a);
